@@ -531,7 +531,17 @@ def inv_c07(st_):
         m = st_.models[k]
         kids = [m.kid] + [s['kid'] for s in m.subs]
         out += [('early-twin/' + c, d) for c, d in check_public_object(twin, kids, 'twin of key %d derived at the previous step' % k)]
+        # whether an early twin follows later changes is not fixed by the statement, but it must show a state the private key has had: what it
+        # was when the twin was derived, or what it is now -- not a mixture (one component of an addition pushed, another one not)
+        try:
+            tv = keykit.drop_empty(keykit.pgpy_view(twin))
+            if tv != st_.last_twin_view.get(k) and tv != keykit.drop_empty(keykit.pgpy_view(st_.keys[k].pubkey)):
+                diff = [kk if isinstance(kk, str) else kk[0] for kk in set(tv) | set(st_.last_twin_view[k]) if tv.get(kk) != st_.last_twin_view[k].get(kk)]
+                out.append(('early-twin/state-the-private-key-never-had', 'twin of key %d derived at the previous step: differs from the key then in %r and from the key now' % (k, sorted(set(diff)))))
+        except Exception as e:   # noqa
+            out.append(('early-twin/view-exception/' + harness.exc_key(e), repr(e)))
     st_.last_twin = {}
+    st_.last_twin_view = {}
     for k, (key, m) in enumerate(zip(st_.keys, st_.models)):
         kids = [m.kid] + [s['kid'] for s in m.subs]
         if m.protected:
@@ -539,6 +549,7 @@ def inv_c07(st_):
                 out += check_public_object(key.pubkey, kids, 'fresh twin of key %d taken while unlocked' % k, fresh_of=key)
         # the last derivation of this step is the one that stays referenced until after the next operation
         st_.last_twin[k] = key.pubkey
+        st_.last_twin_view[k] = keykit.drop_empty(keykit.pgpy_view(st_.last_twin[k]))
         out += check_public_object(st_.last_twin[k], kids, 'fresh twin of key %d (locked)' % k if m.protected else 'fresh twin of key %d' % k, fresh_of=key)
         # a public key loaded from the export
         try:
